@@ -83,6 +83,10 @@ func (v *StructSchema) process(ctx *p.SchemaCtx) {
 		// This is a little bit hacky. But we want to exit here because the error came from zhttp. Meaning we had an error trying to parse the request.
 		// I'm not sure if this is the best behaviour? Do we want to exit here or do we want to continue processing (ofc we add the error always)
 		if err != nil {
+			// issues created by the input front ends do not know the schema type. Without it no message can be found
+			if err.Dtype == "" {
+				err.Dtype = ctx.DType
+			}
 			ctx.AddIssue(ctx.IssueFromUnknownError(err))
 			return
 		}
